@@ -214,3 +214,18 @@ Theorem C20_registered_listed_in_params : forall calls names b k,
   In (names, b) calls -> In k names -> In k (rp_params calls).
 Proof. exact registered_listed_in_params. Qed.
 Print Assumptions C20_registered_listed_in_params.
+
+(* (4b) the "already present" test is exact-class membership: every class the user lists and every
+   base class of the controller IS instantiated, whatever was registered before (in particular
+   instances of classes derived from it) and in whatever order the description lists them; with
+   C20_controllers_sorted_unique: exactly once *)
+Theorem C20_requested_controllers_present : forall user mpi classes base c,
+  In c (classes ++ base) -> In (root_id c) (map ci_id (cc_build user mpi classes base)).
+Proof. exact cc_build_requested_present. Qed.
+Print Assumptions C20_requested_controllers_present.
+
+Theorem C20_new_controller_loads_dependencies : forall user mpi st passed cid defaults deps pd,
+  ~ In cid (map ci_id st) -> In pd deps ->
+  In (root_id (snd pd)) (map ci_id (cc_add user mpi st passed (CC cid defaults deps))).
+Proof. exact cc_add_new_deps_present. Qed.
+Print Assumptions C20_new_controller_loads_dependencies.
